@@ -65,7 +65,7 @@ void extend_runs(Trace& tr, std::mt19937_64& rng, int runs) {
     int base = static_cast<int>(rng() % 5) - 2;
     for (int k = 0; k < 5; ++k) {
       std::vector<int> s;
-      int sz = 1 + static_cast<int>(rng() % 3);
+      int sz = r % 6 == 3 ? 1 : 1 + static_cast<int>(rng() % 3);   // (every 6th run: vertices only)
       while (static_cast<int>(s.size()) < sz) { int v = static_cast<int>(rng() % nv); if (std::find(s.begin(), s.end(), v) == s.end()) s.push_back(v); }
       st.insert_simplex_and_subfaces(s, 0.);
     }
@@ -86,6 +86,10 @@ void extend_runs(Trace& tr, std::mt19937_64& rng, int runs) {
       k0.push_back(bj::object{{"s", jarr(s)}, {"f", fv(static_cast<double>(st.filtration(sh)))}});
     }
     tr.emit(bj::object{{"op", "load"}, {"k", k0}});
+    // every second run the filtration cache is alive when the complex is extended (the range is only walked: the values
+    // of the higher simplices are arbitrary here); the order read after the extension must be that of the extended complex
+    std::size_t walked = 0;
+    if (r % 2 == 1) for (auto sh : st.filtration_simplex_range()) { (void)sh; ++walked; }
     auto efd = st.extend_filtration();
     bj::array k, dec;
     bool exact = true;
@@ -102,7 +106,15 @@ void extend_runs(Trace& tr, std::mt19937_64& rng, int runs) {
       if (std::string(t) != "EXTRA" && std::floor(v4) != v4) exact = false;
       dec.push_back(bj::object{{"f4", static_cast<std::int64_t>(f4)}, {"v4", std::string(t) == "EXTRA" ? bj::value(0) : bj::value(static_cast<std::int64_t>(v4))}, {"t", t}});
     }
-    bj::object ev{{"op", "extend"}, {"k", k}, {"min", fv(static_cast<double>(efd.minval))}, {"max", fv(static_cast<double>(efd.maxval))}, {"dec", dec}};
+    bj::array fl;
+    for (auto sh : st.filtration_simplex_range()) {
+      std::vector<int> s;
+      for (auto v : st.simplex_vertex_range(sh)) s.push_back(v);
+      std::sort(s.begin(), s.end());
+      fl.push_back(jarr(s));
+    }
+    bj::object ev{{"op", "extend"}, {"k", k}, {"min", fv(static_cast<double>(efd.minval))}, {"max", fv(static_cast<double>(efd.maxval))}, {"dec", dec},
+                  {"filt", fl}, {"ns", static_cast<std::int64_t>(st.num_simplices())}, {"cache_alive", walked > 0}};
     if (!exact) ev["off_lattice"] = true;   // rejected by the trace specification (no such field is accepted)
     tr.emit(ev);
     tr.emit(bj::object{{"op", "reset"}, {"k", bj::array{}}});
